@@ -366,7 +366,26 @@ func buildWorker(wd string, race bool) (string, error) {
 	}
 	bin := filepath.Join(wd, "worker")
 	args := []string{"build", "-tags", "verif", "-overlay", ov, "-o", bin}
-	if altRepo() {
+	if os.Getenv("VERIF_COVER") != "" {
+		// statement coverage of the repository under a check (tools/cover.sh): the
+		// cover tool does not read through an overlay, so the overlay is applied
+		// to a physical copy of the tree and the worker is built from that
+		mat, err := materialise(ov, filepath.Join(wd, "mat"))
+		if err != nil {
+			return "", err
+		}
+		gm, err := os.ReadFile(filepath.Join(verifDir, "go.mod"))
+		if err != nil {
+			return "", err
+		}
+		mf := filepath.Join(wd, "alt.mod")
+		os.WriteFile(mf, bytes.Replace(gm, []byte("=> /repo"), []byte("=> "+mat), 1), 0o644)
+		if gs, err := os.ReadFile(filepath.Join(verifDir, "go.sum")); err == nil {
+			os.WriteFile(filepath.Join(wd, "alt.sum"), gs, 0o644)
+		}
+		args = []string{"build", "-tags", "verif", "-o", bin, "-modfile", mf, "-cover",
+			"-coverpkg=github.com/mdzio/go-mqtt/message,github.com/mdzio/go-mqtt/service,github.com/mdzio/go-mqtt/sessions,github.com/mdzio/go-mqtt/topics,github.com/mdzio/go-mqtt/auth"}
+	} else if altRepo() {
 		// the module replacement has to point at the other tree
 		gm, err := os.ReadFile(filepath.Join(verifDir, "go.mod"))
 		if err != nil {
@@ -392,6 +411,41 @@ func buildWorker(wd string, race bool) (string, error) {
 		return "", fmt.Errorf("%v\n%s", err, out.String())
 	}
 	return bin, nil
+}
+
+// materialise copies the tree under test to dst and applies the overlay to the copy.
+func materialise(overlay, dst string) (string, error) {
+	b, err := os.ReadFile(overlay)
+	if err != nil {
+		return "", err
+	}
+	var ov struct{ Replace map[string]string }
+	if err := json.Unmarshal(b, &ov); err != nil {
+		return "", err
+	}
+	if out, err := exec.Command("rsync", "-a", "--exclude", ".git", repoDir+"/", dst+"/").CombinedOutput(); err != nil {
+		return "", fmt.Errorf("rsync: %v %s", err, out)
+	}
+	for orig, repl := range ov.Replace {
+		rel, err := filepath.Rel(repoDir, orig)
+		if err != nil || strings.HasPrefix(rel, "..") {
+			return "", fmt.Errorf("overlay entry outside the tree: %s", orig)
+		}
+		to := filepath.Join(dst, rel)
+		if repl == "" {
+			os.Remove(to)
+			continue
+		}
+		c, err := os.ReadFile(repl)
+		if err != nil {
+			return "", err
+		}
+		os.MkdirAll(filepath.Dir(to), 0o755)
+		if err := os.WriteFile(to, c, 0o644); err != nil {
+			return "", err
+		}
+	}
+	return dst, nil
 }
 
 func writeEvidence(prop, tier string, seed int64, info propInfo, m *core.Report, wall float64, nviol int) {
